@@ -2,7 +2,7 @@ import SlotVerif.Model.GroupWrite
 import SlotVerif.Driver.Codec
 /-! `grpw` protocol (C13): one entry per `move_to` / `shrink_slots` call of a history —
 `merge <from> <to> <map> <from gens> <to gens before> <to gens after>` or `shrink <id> <cap> <gens before> <gens after>`
-(generator lists joined by `/`, empty = no generator).  Each entry is judged by `Grpw.mergeOK` / `Grpw.shrinkOK`. -/
+(generator lists joined by `/`, `-` = no generator), or `add <id> <l> <r> <perm> <gens before> <gens after>` for a `Group::add`.  Each entry is judged by `Grpw.mergeOK` / `Grpw.shrinkOK`. -/
 namespace SV.Drv
 open SV
 
@@ -20,6 +20,12 @@ def grpwEntry (e : String) : String :=
     showBool (Grpw.mergeOK (SlotMap.keys N) N (parsePermList fgS) (parsePermList tbS) (parsePermList taS))
   | ["shrink", _id, capS, bS, aS] =>
     showBool (Grpw.shrinkOK (parseBarSet capS) (parsePermList bS) (parsePermList aS))
+  | ["add", _id, lS, rS, pS, bS, aS] =>
+    let p := parsePairs pS
+    let ok := Grpw.addOK (SlotMap.keys p) (parsePermList bS) p (parsePermList aS)
+    -- a self-union: the permutation handed to the group is the one the asserted equation `id[l] = id[r]` spells
+    let okp := if lS = "-" then true else p == Grpw.selfUnionPerm (parsePairs lS) (parsePairs rS)
+    if !okp then "0:perm-is-not-r-after-l-inverse" else showBool ok
   | _ => "bad-entry"
 
 def grpwRun (body : String) : String :=
